@@ -278,7 +278,8 @@ pub fn run_job(job: &Job) -> JobResult {
     }
     res.state_hashes = states.into_iter().take(200_000).collect();
     res.wall_ms = t0.elapsed().as_millis() as u64;
-    if !job.no_reporter {
+    // (after a hang or deadlock the stuck threads may hold the collector's locks: do not touch it)
+    if !job.no_reporter && res.aborted.is_none() {
         let st = stats();
         res.recycle = st.buffered > 100_000 || st.active > 5_000 || st.danglings > 100_000 || st.receivers > 64;
     }
@@ -562,6 +563,7 @@ struct Agg {
     max_preemptions: u32,
     programs: HashSet<u64>,
     jobs_done: u64,
+    transient_stalls: u64,
 }
 
 pub fn verif_root() -> String {
@@ -639,10 +641,50 @@ pub fn run_check(spec: CheckSpec) -> i32 {
                             w.kill();
                         }
                     }
-                    Ok(res) => {
+                    Ok(mut res) => {
                         if res.aborted.is_some() || res.recycle {
                             if let Some(w) = worker.take() {
                                 w.kill();
+                            }
+                        }
+                        // A hang or deadlock cannot be re-run inside the process that observed it
+                        // (its threads are stuck). Re-run exactly that schedule in a fresh worker
+                        // process: only a hang that shows up again is a finding; a stall that does
+                        // not (an overloaded machine) is not, and the interrupted job is run again.
+                        if res.findings.iter().any(|g| g.finding.rule == "liveness") {
+                            let mut confirmed = Vec::new();
+                            let mut transient = false;
+                            for g in res.findings.drain(..) {
+                                if g.finding.rule != "liveness" {
+                                    confirmed.push(g);
+                                    continue;
+                                }
+                                let mut vj = job.clone();
+                                vj.programs = vec![g.program.clone()];
+                                vj.prefix = g.choices.clone();
+                                vj.expand_only = true;
+                                let mut vw = spawn_worker(job.cancelable, job.no_reporter);
+                                let again = vw.run(&vj).ok().map_or(false, |r| r.findings.iter().any(|x| x.finding.rule == "liveness" && x.finding.what == g.finding.what));
+                                vw.kill();
+                                if again {
+                                    let mut g = g;
+                                    g.reproduced = true;
+                                    confirmed.push(g);
+                                } else {
+                                    transient = true;
+                                }
+                            }
+                            res.findings = confirmed;
+                            if transient && !res.findings.iter().any(|g| g.finding.rule == "liveness") {
+                                // not a property of the code: forget the stall, redo the job once
+                                res.aborted = Some("probe done".into());
+                                let mut a = agg.lock().unwrap();
+                                a.transient_stalls += 1;
+                                if a.transient_stalls <= 20 {
+                                    queue.lock().unwrap().push_back(job.clone());
+                                } else {
+                                    a.machinery.push("too many transient stalls (overloaded machine?)".into());
+                                }
                             }
                         }
                         let mut a = agg.lock().unwrap();
@@ -754,12 +796,8 @@ fn finish_check(spec: &CheckSpec, agg: Agg, t0: Instant) -> i32 {
             continue;
         }
         if !g.reproduced {
-            if g.finding.rule == "liveness" {
-                // cannot be re-run in the same process; reported from the first observation
-            } else {
-                machinery.push(format!("finding did not reproduce on replay: {key}: {}", g.finding.detail));
-                continue;
-            }
+            machinery.push(format!("finding did not reproduce on replay: {key}: {}", g.finding.detail));
+            continue;
         }
         if !printed.insert(key.clone()) {
             continue;
@@ -854,6 +892,7 @@ fn finish_check(spec: &CheckSpec, agg: Agg, t0: Instant) -> i32 {
             "known_findings_seen": known_hits.keys().collect::<Vec<_>>(),
             "violation_list": violation_list,
             "machinery_errors": machinery,
+            "transient_stalls_retried": agg.transient_stalls,
             "explanation": "every explored schedule is an execution of the real fastrace code under the controlled scheduler; states are distinct abstract states (actor positions, pending steps, queue pushes/pops, flags, collector phase, delivered counts) seen at decision points",
         },
         "assumptions": spec.assumptions,
